@@ -55,6 +55,12 @@ Programs (`Prog`) nest these contexts arbitrarily (`_activate_plugin_worlds` = m
 `raise` as an exception in user code / tracing / lowering and `catch` for the
 `try … except Exception` around nested plugin bindings.
 
+Exception points do NOT distinguish exception classes: `raise`, a faulting spec, a failing
+`patch_fn` stand for ANY exception, `BaseException`s that are not `Exception`s included
+(KeyboardInterrupt, SystemExit, GeneratorExit): the code unwinds in `finally` blocks, which run for
+all of them; `catch` stands for whatever handler swallows the exception.  The harness injects both
+classes at every point.
+
 Unwinding steps themselves are assumed not to raise (`setattr` of a value that was there before,
 `delattr` of an attribute that was just set).  `_own_attr` falls back to `getattr` for targets
 without `__dict__`; targets here are modules and classes.
